@@ -401,6 +401,7 @@ pub fn run(args: &[&str]) -> String {
         }
         "hand" => op_hand(args[1], args[2].parse().unwrap(), args[3]),
         "mreq" => crate::sess::op_mreq(args[1], args[2], args[3].parse().unwrap()),
+        "minit" => crate::sess::op_minit(args[1]),
         _ => panic!("unknown handler op"),
     }
 }
@@ -664,6 +665,12 @@ pub fn gen(r: &mut Rng, n: usize, flavor: &str) -> Vec<String> {
                 _ => r.below(1 << 21) as usize,
             };
             out.push(format!("left {}", len));
+        }
+    }
+    if flavor == "C11" {
+        // the manager's side: the bitfield computed at Init for random status vectors (incl. Reserved pieces)
+        for _ in 0..(n / 5) {
+            out.push(crate::sess::gen_minit(r));
         }
     }
     if flavor == "C09" {
